@@ -187,6 +187,12 @@ def step (st : St) (toks : List String) : St × String :=
       (st, r ++ "\t" ++ spec)
     | none => (st, "bad-op")
   | ["pd.snap"] => (st, snapStr false st.pd ++ "\t*")
+  | ["pd.torn"] =>
+    -- a restart after a crash that left a bare length prefix at the manifest tail: recovery drops
+    -- the fragment, so it is a restart
+    let pd' := restart st.pdc st.pddisk
+    ({ st with pd := pd' },
+      snapStr false pd' ++ "\t" ++ (if st.pdDirty then "*" else snapStr false st.pd))
   | ["pd.restart"] =>
     -- cmd/nokv/pd.go: load the persisted regions and re-upsert them in id order
     -- reply = catalog after the restart; spec = catalog before it ("reloads identically"),
